@@ -354,15 +354,18 @@ class Runner:
         extra = getattr(mod, "evidence_extra", None)
         if extra:
             cov.update(extra(agg))
+        cov["repo"] = _repo_provenance()
         ev = {
             "property_id": mod.ID, "tier": self.tier, "seed": self.seed, "level": mod.LEVEL,
             "coverage": cov, "assumptions": mod.ASSUMPTIONS, "wall_s": round(wall, 2), "violations": n_viol,
         }
-        os.makedirs(os.path.join(K.VERIF, "evidence"), exist_ok=True)
-        tmp = os.path.join(K.VERIF, "evidence", f".{mod.ID}.tmp")
+        # evidence/ describes /repo itself; a run pointed elsewhere (VERIF_REPO = scratch copy with a seeded change) keeps its report apart
+        evdir = os.path.join(K.VERIF, "evidence") if os.path.realpath(K.REPO) == "/repo" else os.path.join(K.VERIF, "work", "evidence-other-repo")
+        os.makedirs(evdir, exist_ok=True)
+        tmp = os.path.join(evdir, f".{mod.ID}.tmp")
         with open(tmp, "w") as f:
             json.dump(ev, f, indent=1, default=K._json_default)
-        os.replace(tmp, os.path.join(K.VERIF, "evidence", f"{mod.ID}.json"))
+        os.replace(tmp, os.path.join(evdir, f"{mod.ID}.json"))
 
 
 def _clip(o, n=1200):
@@ -370,6 +373,17 @@ def _clip(o, n=1200):
     if len(s) <= n:
         return o
     return {"clipped_json": s[:n] + "...", "full_len": len(s)}
+
+
+def _repo_provenance() -> dict:
+    out = {"path": K.REPO}
+    try:
+        out["head"] = subprocess.run(["git", "-C", K.REPO, "rev-parse", "--short", "HEAD"], capture_output=True, text=True, timeout=20).stdout.strip()
+        st = subprocess.run(["git", "-C", K.REPO, "status", "--porcelain", "--untracked-files=no"], capture_output=True, text=True, timeout=20).stdout
+        out["working_tree_modified_files"] = [l[3:] for l in st.splitlines()][:20]
+    except Exception as e:  # noqa
+        out["note"] = f"git not available: {e!r}"
+    return out
 
 
 def do_replay(mod, path, workers) -> int:
